@@ -135,14 +135,8 @@ theorem step_binv (cfg : Config S) (hdt : 0 ≤ cfg.dt) (P : NodeId → Proto S 
 
 theorem reachable_binv {cfg : Config S} (hdt : 0 ≤ cfg.dt) {P : NodeId → Proto S σ} {w : World S σ}
     (h : Reachable cfg P w) : BInv cfg w := by
-  obtain ⟨pre, n, rfl⟩ := h
-  suffices ∀ n (w : World S σ), BInv cfg w → LInv cfg w →
-      BInv cfg (steps cfg P n w) ∧ LInv cfg (steps cfg P n w) from
-    (this n _ (binv_of_ext (ext_initWith cfg P pre) (init_binv cfg P)) (initWith_linv cfg P pre).1).1
-  intro n
-  induction n with
-  | zero => intro w hw hl; exact ⟨hw, hl⟩
-  | succ n ih => intro w hw hl; exact ih _ (step_binv cfg hdt P w hw hl) (step_linv cfg hdt P w hl)
+  exact h.rec_inv (init_binv cfg P) (fun w hr hw => step_binv cfg hdt P w hw (reachable_linv hdt hr))
+    (fun w n p _ hw => binv_of_ext (ext_runProg cfg n p w) hw)
 
 /-- every executed event has `ts ≤ duration`, and the number of executed events never exceeds
     `max_iterations` (so every executed ordinal is below it) — for every program -/
